@@ -2547,14 +2547,21 @@ def run(ctx):
         'leakage is measured for N >= 32 pixels across the pupil (10 lambda/D must stay below the pupil Nyquist frequency) and q at least the '
         'documented minimum for the charge',
     ]
-    part_a(ctx)
-    part_b(ctx)
-    part_c(ctx)
-    part_f(ctx)
-    part_g(ctx)
-    part_h(ctx)
-    geo = part_e(ctx)
-    part_d(ctx, geo)
+    walls = ctx.extra.setdefault('part_wall_s', {})
+
+    def timed(name, f, *a):
+        t0 = time.time()
+        r = f(*a)
+        walls[name] = round(time.time() - t0, 2)
+        return r
+    timed('A', part_a, ctx)
+    timed('B', part_b, ctx)
+    timed('C', part_c, ctx)
+    timed('F', part_f, ctx)
+    timed('G', part_g, ctx)
+    timed('H', part_h, ctx)
+    geo = timed('E', part_e, ctx)
+    timed('D', part_d, ctx, geo)
 
 
 def replay(ctx, case):
